@@ -303,6 +303,32 @@ Fixpoint plog_push (l : list val) (es : list val) : list val * list plop :=
 Fixpoint plog_pops (len : Z) (cnt : nat) (i : Z) : list plop :=
   match cnt with O => [] | S c => PPop (len - i - 1) :: plog_pops len c (i + 1) end.
 
+(* decoding of a PersistentLog write: new list and the DB operations it queues; None = panic *)
+Definition plog_write (l : list val) (v : val) : option (list val * list plop) :=
+  match fld "cmd" v with
+  | Some (VS c) =>
+      if String.eqb c "log_concat" then
+        match fld "entries" v with
+        | Some (VT es) => Some (plog_push l es)
+        | _ => None
+        end
+      else if String.eqb c "log_pop" then
+        match fld "cnt" v with
+        | Some (VI cnt) =>
+            if (0 <=? cnt) && (cnt <=? Z.of_nat (List.length l))
+            then Some (firstn (List.length l - Z.to_nat cnt) l,
+                       plog_pops (Z.of_nat (List.length l)) (Z.to_nat cnt) 0)
+            else None                                                   (* Slice panics *)
+        | _ => None
+        end
+      else None                                                          (* panic("unknown") *)
+  | _ => None
+  end.
+
+(* PersistentLog.ReadValue / Index + ImmutableResource.ReadValue *)
+Definition plog_get (l : list val) (i : Z) : option val :=
+  if (1 <=? i) && (i <=? Z.of_nat (List.length l)) then nth_error l (Z.to_nat (i - 1)) else None.
+
 Inductive leaf :=
 | LLocal (value oldValue : val)                                  (* LocalArchetypeResource *)
 | LIn (buffer backlog chan : list val)                           (* InputChan; chan = ghost Go channel *)
@@ -315,7 +341,9 @@ Inductive leaf :=
 | LPersist (hasNew : bool) (value oldValue : val) (db : option val) (* Persistent over a local; db = ghost *)
 | LPLog (lg oldLg : list val) (hasOld : bool) (ops : list plop) (db : list (Z * val))
 | LShared (value oldValue : val) (hasLock other : bool)          (* localShared; other = lock held elsewhere *)
-| LRelaxed (hasSent : bool) (sent inflight : list val) (down : bool). (* relaxedMailboxesRemote; ghost stream, split as for LSOut *)
+| LRelaxed (hasSent : bool) (sent inflight : list val) (down : bool) (* relaxedMailboxesRemote; ghost stream, split as for LSOut *)
+| LTcp (inCS : bool) (rbuf delivered : list val).                (* tcpMailboxesRemote + the receiving connection handler:
+                                                                    rbuf = handler's localBuffer, delivered = queued batches (ghost) *)
 
 Definition is_str (v : val) : bool := match v with VS _ => true | _ => false end.
 
@@ -392,42 +420,22 @@ Definition leaf_step (s : leaf) (a : act) : leaf * res val :=
       | _ => (s, Crash)
       end
   | LPersist hasNew value old db =>
-      (* Persistent.WriteValue sets hasNewValue; Persistent.Index hands out the wrapped
-         resource's sub-resource, so an indexed write does NOT set it *)
+      (* Persistent.WriteValue and persistentSubResource.WriteValue set hasNewValue *)
       let '(v', r) := local_step value a in
-      let hn := match a with AWrite [] _ => true | _ => hasNew end in
+      let hn := match a with AWrite _ _ => true | _ => hasNew end in
       (LPersist hn v' old db, r)
   | LPLog l oldl hasOld ops db =>
       match a with
       | ARead [] => (s, Ok (VT l))
-      | ARead [VI i] =>
-          if (1 <=? i) && (i <=? Z.of_nat (List.length l))
-          then match nth_error l (Z.to_nat (i - 1)) with Some e => (s, Ok e) | None => (s, Crash) end
-          else (s, Crash)
+      | ARead [VI i] => match plog_get l i with Some e => (s, Ok e) | None => (s, Crash) end
       | AWrite [] v =>
           let oldl' := if hasOld then oldl else l in
-          match fld "cmd" v with
-          | Some (VS c) =>
-              if String.eqb c "log_concat" then
-                match fld "entries" v with
-                | Some (VT es) => let '(l', o') := plog_push l es in
-                                  (LPLog l' oldl' true (ops ++ o') db, Ok VD)
-                | _ => (LPLog l oldl' true ops db, Crash)
-                end
-              else if String.eqb c "log_pop" then
-                match fld "cnt" v with
-                | Some (VI cnt) =>
-                    if (0 <=? cnt) && (cnt <=? Z.of_nat (List.length l))
-                    then (LPLog (firstn (List.length l - Z.to_nat cnt) l) oldl' true
-                            (ops ++ plog_pops (Z.of_nat (List.length l)) (Z.to_nat cnt) 0) db, Ok VD)
-                    else (LPLog l oldl' true ops db, Crash)                (* Slice panics *)
-                | _ => (LPLog l oldl' true ops db, Crash)
-                end
-              else (LPLog l oldl' true ops db, Crash)                      (* panic("unknown") *)
-          | _ => (LPLog l oldl' true ops db, Crash)
+          match plog_write l v with
+          | Some (l', o') => (LPLog l' oldl' true (ops ++ o') db, Ok VD)
+          | None => (LPLog l oldl' true ops db, Crash)
           end
       | ATouch [] => (s, Refuse)
-      | ATouch [VI i] => if (1 <=? i) && (i <=? Z.of_nat (List.length l)) then (s, Refuse) else (s, Crash)
+      | ATouch [VI i] => match plog_get l i with Some _ => (s, Refuse) | None => (s, Crash) end
       | _ => (s, Crash)
       end
   | LShared value old hasLock other =>
@@ -440,6 +448,12 @@ Definition leaf_step (s : leaf) (a : act) : leaf * res val :=
   | LRelaxed hasSent sent inflight down =>
       match a with
       | AWrite [] v => if down then (s, Refuse) else (LRelaxed true sent (inflight ++ [v]) down, Ok VD)
+      | ATouch [] => (s, Refuse)
+      | _ => (s, Crash)
+      end
+  | LTcp inCS rbuf delivered =>
+      match a with
+      | AWrite [] v => (LTcp true ((if inCS then rbuf else []) ++ [v]) delivered, Ok VD)   (* begin resets localBuffer *)
       | ATouch [] => (s, Refuse)
       | _ => (s, Crash)
       end
@@ -461,6 +475,7 @@ Definition leaf_cm (s : leaf) : leaf :=
       if hasOld then LPLog l [] false [] (fold_left db_apply ops db) else s
   | LShared value old hasLock other => if hasLock then LShared value value false other else s
   | LRelaxed _ sent inflight down => LRelaxed false (sent ++ inflight) [] down
+  | LTcp inCS rbuf delivered => if inCS then LTcp false [] (delivered ++ rbuf) else s
   end.
 
 Definition leaf_ab (s : leaf) : leaf :=
@@ -476,6 +491,7 @@ Definition leaf_ab (s : leaf) : leaf :=
   | LPLog l oldl hasOld ops db => if hasOld then LPLog oldl [] false [] db else s
   | LShared value old hasLock other => if hasLock then LShared old old false other else s
   | LRelaxed _ _ _ _ => s
+  | LTcp _ rbuf delivered => LTcp false rbuf delivered
   end.
 
 Definition leaf_abp (s : leaf) : bool :=
@@ -499,13 +515,13 @@ Definition imap_act (a : act) : option (val * act) :=
   | _ => None
   end.
 
+Definition is_touch_nil (a : act) : bool := match a with ATouch [] => true | _ => false end.
+
 Definition imap_step (s : imap) (a : act) : imap * res val :=
   match imap_act a with
   | Some ka => fam_step val_eqb leaf_impl s ka
-  | None => match a with
-            | ATouch [] => (s, Refuse)
-            | _ => (s, Crash)              (* ArchetypeResourceMapMixin: ErrArchetypeResourceMapReadWrite *)
-            end
+  | None => (s, if is_touch_nil a then Refuse else Crash)
+            (* refused before any call / ArchetypeResourceMapMixin: ErrArchetypeResourceMapReadWrite *)
   end.
 
 Definition imap_impl : impl imap act :=
@@ -514,26 +530,29 @@ Definition imap_impl : impl imap act :=
 
 (* ------------------------------------------------------------------ a top-level resource *)
 
-Inductive node := NLeaf (l : leaf) | NMap (m : imap).
+Section Sum.
+  Context {S1 S2 A : Type}.
+  Variable I1 : impl S1 A.
+  Variable I2 : impl S2 A.
+  Definition sum_impl : impl (S1 + S2) A :=
+    mkImpl
+      (fun s a => match s with
+                  | inl x => let '(x', r) := i_step I1 x a in (inl x', r)
+                  | inr y => let '(y', r) := i_step I2 y a in (inr y', r)
+                  end)
+      (fun s => match s with
+                | inl x => let '(x', b) := i_pc I1 x in (inl x', b)
+                | inr y => let '(y', b) := i_pc I2 y in (inr y', b)
+                end)
+      (fun s => match s with inl x => inl (i_cm I1 x) | inr y => inr (i_cm I2 y) end)
+      (fun s => match s with inl x => inl (i_ab I1 x) | inr y => inr (i_ab I2 y) end)
+      (fun s => match s with inl x => i_abp I1 x | inr y => i_abp I2 y end).
+End Sum.
 
-Definition node_step (s : node) (a : act) : node * res val :=
-  match s with
-  | NLeaf l => let '(l', r) := leaf_step l a in (NLeaf l', r)
-  | NMap m => let '(m', r) := imap_step m a in (NMap m', r)
-  end.
-Definition node_pc (s : node) : node * bool :=
-  match s with
-  | NLeaf l => let '(l', b) := leaf_pc l in (NLeaf l', b)
-  | NMap m => let '(m', b) := i_pc imap_impl m in (NMap m', b)
-  end.
-Definition node_cm (s : node) : node :=
-  match s with NLeaf l => NLeaf (leaf_cm l) | NMap m => NMap (i_cm imap_impl m) end.
-Definition node_ab (s : node) : node :=
-  match s with NLeaf l => NLeaf (leaf_ab l) | NMap m => NMap (i_ab imap_impl m) end.
-Definition node_abp (s : node) : bool :=
-  match s with NLeaf l => leaf_abp l | NMap m => i_abp imap_impl m end.
-
-Definition node_impl : impl node act := mkImpl node_step node_pc node_cm node_ab node_abp.
+Definition node : Type := leaf + imap.
+Definition NLeaf (l : leaf) : node := inl l.
+Definition NMap (m : imap) : node := inr m.
+Definition node_impl : impl node act := sum_impl leaf_impl imap_impl.
 
 Definition touch_of (a : act) (j : nat) : act :=
   match a with
@@ -593,13 +612,20 @@ Definition env_handle (e : envop) : string := match e with EPush h _ => h | EOth
 
 Definition ctx_env (c : ctx) (e : envop) : ctx :=
   match fres c (env_handle e) with
-  | Some (NLeaf l) => mkFam (fupd String.eqb (fres c) (env_handle e) (NLeaf (leaf_env e l))) (fdirty c)
+  | Some (inl l) => mkFam (fupd String.eqb (fres c) (env_handle e) (NLeaf (leaf_env e l))) (fdirty c)
   | _ => c
   end.
 
 (* ------------------------------------------------------------------ observation (for the tie)
    What the harness can see of the real resources between attempts. *)
 Definition oval (o : option val) : val := match o with Some v => VT [v] | None => VT [] end.
+
+Fixpoint db_insert (x : Z * val) (l : list (Z * val)) : list (Z * val) :=
+  match l with
+  | [] => [x]
+  | y :: r => if fst x <=? fst y then x :: l else y :: db_insert x r
+  end.
+Definition db_sort (l : list (Z * val)) : list (Z * val) := fold_right db_insert [] l.
 
 Definition leaf_snap (l : leaf) : val :=
   match l with
@@ -611,17 +637,18 @@ Definition leaf_snap (l : leaf) : val :=
   | LDummy v => v
   | LFile _ _ fs => oval fs
   | LPersist _ v _ db => VT [v; oval db]
-  | LPLog l _ _ _ db => VT [VT l; VT (map (fun '(i, e) => VT [VI i; e]) db)]
+  | LPLog l _ _ _ db => VT [VT l; VT (map (fun '(i, e) => VT [VI i; e]) (db_sort db))]
   | LShared v _ _ _ => v
   | LRelaxed _ sent inf _ => VT (sent ++ inf)
+  | LTcp _ _ delivered => VT delivered
   end.
 
 (* a snapshot request: handle, and for a map the keys to look at *)
 Definition node_snap (n : option node) (keys : list val) : val :=
   match n with
   | None => VD
-  | Some (NLeaf l) => leaf_snap l
-  | Some (NMap m) => VT (map (fun k => match fres m k with Some l => leaf_snap l | None => VD end) keys)
+  | Some (inl l) => leaf_snap l
+  | Some (inr m) => VT (map (fun k => match fres m k with Some l => leaf_snap l | None => VD end) keys)
   end.
 
 Definition ctx_snap (c : ctx) (q : list (string * list val)) : list val :=
